@@ -176,9 +176,11 @@ def conditions(tier):
                           twin=(n - 1 >= 3)))
         cuts = (36, 37, 92, 93) if n >= 3 else (36, 37)
         for tag, pre in ord_partition('s', 0, cuts):
-            conds.append(Cond('modes_%s_eq%d_%s' % (ctx, n, tag), 's: str', ['len(s) == %d' % n, pre],
-                              'body_modes(s, %r)' % ctx, timeout=T * (1 if n < 4 else 4), cost=5,
-                              twin=(tag == 'p_eq36' and n >= 3)))
+            for tag2, pre2 in ([('', None)] if n < 3 else [('_lo', 'ord(s[1]) < 92'), ('_hi', 'ord(s[1]) >= 92')]):
+                conds.append(Cond('modes_%s_eq%d_%s%s' % (ctx, n, tag, tag2), 's: str',
+                                  ['len(s) == %d' % n, pre] + ([pre2] if pre2 else []),
+                                  'body_modes(s, %r)' % ctx, timeout=T * (1 if n < 4 else 4), cost=5,
+                                  twin=(tag == 'p_eq36' and n >= 3)))
     for ctxn, lst in (('S', SK_S), ('D', SK_D)):
         for nm, sk0 in lst:
             variants = hole_variants(sk0, 1)[:(2 if quick else 99)] if quick else \
